@@ -21,6 +21,8 @@ _state = {"on": False, "log": [], "roots": [], "deny_outside": True, "plan": Non
 CRASH_EXIT = 77
 _real_open = io.open
 _real_sendfile = getattr(os, "sendfile", None)
+_real_write = os.write
+_real_pwrite = getattr(os, "pwrite", None)
 
 WRITE_FLAGS = os.O_WRONLY | os.O_RDWR | os.O_CREAT | os.O_TRUNC | os.O_APPEND
 
@@ -40,7 +42,7 @@ def _flush_log():
     lf = _state["logfile"]
     if lf:
         fd = os.open(lf, os.O_WRONLY | os.O_CREAT | os.O_TRUNC, 0o644)
-        os.write(fd, json.dumps({"log": _state["log"], "denied": _state["denied"]}).encode())
+        _real_write(fd, json.dumps({"log": _state["log"], "denied": _state["denied"]}).encode())
         os.close(fd)
 
 
@@ -235,6 +237,49 @@ def _sendfile(out_fd, in_fd, offset, count, *a, **kw):
     return _real_sendfile(out_fd, in_fd, offset, count, *a, **kw)
 
 
+def _fd_target(fd):
+    """Path of the regular file behind a descriptor if it lies inside the observed roots, else None."""
+    try:
+        path = os.readlink("/proc/self/fd/%d" % fd)
+    except OSError:
+        return None
+    if not path.startswith("/") or path.endswith(" (deleted)"):
+        return None
+    for r in _state["roots"]:
+        if path == r or path.startswith(r + os.sep):
+            return path
+    return None
+
+
+def _write(fd, data):
+    """os.write on a descriptor of an observed file: logged as a direct write.  `extra` is the file offset
+    after the call (= bytes in the file for the usual write-from-the-start).  A "torn" fault is a SHORT COUNT:
+    k bytes are written and k is returned - no error, exactly what write(2) may do on a nearly full disk or
+    under a file size limit; the caller has to look at the return value."""
+    st = _state
+    if st["on"] and not st["suspend"]:
+        path = _fd_target(fd)
+        if path is not None:
+            fault = _op("dwrite", path, extra=-1)
+            rec = st["log"][-1]
+            rec["via"] = "oswrite"
+            if fault in ("torn", "torncrash"):
+                k = min(st["plan"].get("k", 1), max(0, len(data) - 1))
+                n = _real_write(fd, bytes(data)[:k])
+                rec["extra"] = n
+                if fault == "torncrash":
+                    _flush_log()
+                    os._exit(CRASH_EXIT)
+                return n
+            n = _real_write(fd, data)
+            try:
+                rec["extra"] = os.lseek(fd, 0, os.SEEK_CUR)
+            except OSError:
+                rec["extra"] = n
+            return n
+    return _real_write(fd, data)
+
+
 def install():
     if not _state["installed"]:
         sys.addaudithook(_hook)
@@ -242,6 +287,7 @@ def install():
         io.open = _open
         if _real_sendfile is not None:
             os.sendfile = _sendfile
+        os.write = _write
         _state["installed"] = True
 
 
